@@ -229,6 +229,7 @@ def summarise(ev, st0, fr, H, stops):
         saved_active = dict(fr.active)
         saved_prog = fr.progress
         saved_iters = dict(fr.iters)
+        saved_lp = dict(fr.loop_progress)
         fr.iters[H] = 0
         try:
             outs = ev.run(s, fr, H, it_stops, skip_header=H, pred=some_pred)
@@ -238,6 +239,7 @@ def summarise(ev, st0, fr, H, stops):
             fr.active = saved_active
             fr.progress = saved_prog
             fr.iters = saved_iters
+            fr.loop_progress = saved_lp
         return pre, outs
 
     # ---- fixpoint over (written locations, interval invariants): each round evaluates the body once
@@ -378,6 +380,21 @@ def resolve(ev, st, t):
             break
         n += 1
     return t
+
+
+def simplify_under(ev, st, t):
+    """rewrite t with every 1-bit atom that the path assumptions fix replaced by its value"""
+    m = {}
+    for a in st.assume:
+        if a.w != 1:
+            continue
+        if a.op == "aff" and (a.aux[0] & 1) and len(a.args) == 1 and a.aux[1] == (1,):
+            m[a.args[0]] = T.FALSE
+        elif a.op != "const":
+            m[a] = T.TRUE
+    if m:
+        t = T.subst(t, m)
+    return resolve(ev, st, t)
 
 
 def tick_depth(w, base):
